@@ -65,7 +65,7 @@ def render_arg(a, dialect):
         return 'new id %s%s%s' % (a['iface'] if a.get('iface') else '[unknown]', at,
                                   ('%u' % a['v']) if a['v'] != 0 else 'nil')
     if k == 'a':
-        return ('array[%d]' % (4 * len(a['data']))) if dialect['new'] else 'array'
+        return ('array[%d]' % (4 * len(a['data']) + a.get('extra_bytes', 0))) if dialect['new'] else 'array'
     if k == 'h':
         return 'fd %d' % a['v']
     raise ValueError(k)
